@@ -75,6 +75,12 @@ def run(ctx):
         if set(vals) != {'Lazer', 'Intermode', 'Legacy'}:
             continue
         sums = {k: has_mod_summary(v) if v is not None else None for k, v in vals.items()}
+        if any(s is None for s in sums.values()) and any(s is not None and s[0] == 'contains' for s in sums.values()):
+            bad_arms = [k for k, s_ in sums.items() if s_ is None]
+            ctx.violation('C08-R1', 'has:' + f.name, 'GameMods::%s: arm(s) %s are not a plain membership test while the other arms are (%s): the representations can disagree'
+                          % (f.name, bad_arms, {k: prov.show(v, maxdepth=3)[:80] for k, v in vals.items()}), f.where())
+            n_has += 1
+            continue
         if any(s is None for s in sums.values()):
             ctx.note('GameMods::%s matches on the representation but is not a plain has-mod accessor: %s' % (f.name, {k: prov.show(v, maxdepth=3)[:80] for k, v in vals.items()}))
             continue
